@@ -12,13 +12,13 @@ import (
 )
 
 // TestC46ReproShortRead is the minimal reproduction of finding
-// C46:restore-short-read (plain regression test, not part of the check's units):
+// C46:restore-short-read (fixed in /repo c2e03dd); plain regression test, not part of the check's units:
 // ./vgo test -run TestC46ReproShortRead -v ./c46/
 func TestC46ReproShortRead(t *testing.T) {
 	dir, _ := os.MkdirTemp("", "c46-repro-")
 	defer os.RemoveAll(dir)
 	src := openShard(filepath.Join(dir, "src"), false)
-	o := build(uni.Spec{Kind: uni.Regular, Cnr: 0, ID: 0, Exp: -1, Parent: -1, ParentExp: -1, First: -1, PayloadLen: 100})
+	o := build(Spec{Kind: uni.Regular, Len: 100})
 	if err := src.Put(o, nil); err != nil {
 		t.Fatal(err)
 	}
